@@ -75,6 +75,7 @@ def run(chk):
             chk.count("branch:" + ("square" if p == m else ("under" if p < m else "over")))
             # ---- run the implementation: batch, each row as a 1-D vector, superposition
             try:
+                impl.sspor_bystander(n, p)      # another model fitted and used in between must not influence this one
                 out = impl.quiet(model.predict, Y.copy())
             except Exception as e:
                 if singular_square:
